@@ -150,6 +150,16 @@ def run(ctx):
         ev = {"kind": "delete", "file": "p1/f1.rego"} if kind == "delete" else {"kind": "rename", "file": "p1/f1.rego", "to": "p1/g1.rego"}
         cases.append({"id": len(cases), "op": "lsp.history", "files": files, "events": [ev]})
     cases += directed_aggregate_histories(len(cases))
+    # directed bursts: a change immediately followed by the deletion of the same file (the lint job of the change is
+    # still in flight when the file disappears) — several repetitions, the schedule is not controlled
+    for rep in range(4 if ctx.quick else 16):
+        files = {"p0/f0.rego": content(0, [1], 0), "p1/f1.rego": content(1, [], 1), "p2/f2.rego": content(2, [1], 0),
+                 ".regal/config.yaml": CFG}
+        evs = [{"kind": "open", "file": "p1/f1.rego", "pauseMs": 0}] if rep % 2 else []
+        for k in range(1 + rep % 3):
+            evs.append({"kind": "change", "file": "p1/f1.rego", "text": content(1, [], 1 + (k % 2)), "pauseMs": 0})
+        evs.append({"kind": "delete", "file": "p1/f1.rego", "pauseMs": 0})
+        cases.append({"id": len(cases), "op": "lsp.history", "files": files, "events": evs})
     impl = ctx.impl(cases, timeout=3000, procs=6)
     for c in cases:
         r = impl[c["id"]]
